@@ -26,6 +26,8 @@ PROBES = ("attackers::generate_attackers_of",)
 
 
 def run(fx, rep, tier):
+    global _fx
+    _fx = fx
     rule_ep(fx, rep)
     rule_king(fx, rep)
     rule_castle(fx, rep)
@@ -163,6 +165,9 @@ def is_game_player(e):
     return isinstance(e, tuple) and e[0] == "field" and e[2] == "player" and isinstance(strip_refs(e[1]), tuple) and strip_refs(e[1])[0] == "arg"
 
 
+_fx = None
+
+
 def scratch_edits(body, L, before_bb):
     """Edits applied to scratch board local L that dominate block before_bb:
     [('remove', sq_expr) | ('set', sq_expr, piece_expr)]; also returns whether L is a clone of game.board."""
@@ -174,6 +179,26 @@ def scratch_edits(body, L, before_bb):
             is_clone = is_game_board(body.expr(t["args"][0], expand_named=True))
     edits = []
     others = []
+    if len(ds) == 1 and ds[0][0] == "call" and not is_clone and _fx is not None:
+        # the scratch board is built by a helper (`board_without_king(game, king)`): take the helper's own clone + edits,
+        # with its parameters replaced by the call's arguments
+        t0 = ds[0][2]
+        hb = _fx.body(callee_name(t0)) if callee_name(t0) else None
+        if hb is not None and norm(hb.name).startswith("chess::movegen::") and hb.local_ty(0) == "chess::board::Board":
+            from facts import substitute_args
+            actual = tuple(body.expr(a, expand_named=True, at=ds[0][1]) for a in t0["args"])
+            rets = hb.return_blocks()
+            # the local returned: `_0 = move _L`
+            src = [st["rv"]["op"]["pl"]["l"] for bb0, j0, st in hb.stmts() if st["k"] == "assign" and st["lhs"]["l"] == 0 and not st["lhs"].get("p") and
+                   st["rv"]["k"] == "use" and "pl" in st["rv"]["op"] and not st["rv"]["op"]["pl"].get("p")]
+            if len(src) == 1 and len(rets) == 1:
+                hds = hb.defs().get(src[0], [])
+                if len(hds) == 1 and hds[0][0] == "call" and norm(callee_name(hds[0][2]) or "").endswith("Clone>::clone"):
+                    is_clone = is_game_board(substitute_args(hb.expr(hds[0][2]["args"][0], expand_named=True), actual))
+                h_clone, h_edits, h_others = scratch_edits(hb, src[0], rets[0])
+                for e in h_edits:
+                    edits.append(tuple([e[0]] + [substitute_args(x, actual) for x in e[1:]]))
+                others.extend(h_others)
     for bb, t in body.calls():
         if not t["args"]:
             continue
